@@ -1377,13 +1377,12 @@ def generate(repo, outdir, strict=False):
         raise TieError("c2coq: internal error %s: %s" % (type(e).__name__, e))
 
 
-def _generate(repo, outdir, strict=False):
-    from vlib import write_if_changed
-    repo, outdir = Path(repo), Path(outdir)
+def translate_all(repo, targets=None):
+    """-> (unit, [(target, FuncInfo)], [(coqname, file, function, reason)])"""
     verif = TOOLS.parent
-    unit = Unit(repo, verif / "build" / "c2coq_cache")
-    failures, summary = [], {}
-    for tg in load_targets():
+    unit = Unit(Path(repo), verif / "build" / "c2coq_cache")
+    done, failures = [], []
+    for tg in (targets if targets is not None else load_targets()):
         rel, name = tg["file"], tg["function"]
         cn = tg.get("as") or "c_" + name
         try:
@@ -1391,10 +1390,19 @@ def _generate(repo, outdir, strict=False):
             info = unit.function(tu, name, coqname=cn)
             if info.coqname != cn:
                 raise Unsupported("the name %s is already taken" % cn)
-            summary["c2coq:" + cn] = info.iface
+            done.append((tg, info))
         except Unsupported as e:
             failures.append((cn, rel, name, str(e)))
-            unit.out.append((cn, None, "(* %s: %s in %s is NOT TRANSLATED: %s *)" % (cn, name, rel, str(e).replace("(*", "( *").replace("*)", "* )").replace('"', "''"))))
+            unit.out.append((cn, None, "(* %s: %s in %s is NOT TRANSLATED: %s *)" % (
+                cn, name, rel, str(e).replace("(*", "( *").replace("*)", "* )").replace('"', "''"))))
+    return unit, done, failures
+
+
+def _generate(repo, outdir, strict=False):
+    from vlib import write_if_changed
+    repo, outdir = Path(repo), Path(outdir)
+    unit, done, failures = translate_all(repo)
+    summary = {"c2coq:" + info.coqname: info.iface for _, info in done}
     lines = ["(* GENERATED by tools/gen.d/c2coq.py from the repository's current sources - do not edit.",
              "   One Definition c_<function> per target of tools/c2coq.d/targets.json (and per helper they call), over the",
              "   operators of Base/CSem.v; Tie/Tie_<engine>.v proves each of them equal to its model function. *)",
